@@ -13,7 +13,7 @@ Record ritem := mkR {
 
 (* flex.py 3.A *)
 Definition to_item (r : ritem) : item :=
-  mkItem (rbase r) (rmin r) (rmax r) (rgrow r) (rshrink r) (rbord r + oz (rml r) + oz (rmr r)) (rpad r).
+  mkItem (rbase r) (rmin r) (rmax r) (rgrow r) (rshrink r) (rpad r + rbord r + oz (rml r) + oz (rmr r)).
 
 Inductive jkw := KNormal | KFlexStart | KFlexEnd | KStart | KEnd | KLeft | KRight | KCenter
                | KBetween | KAround | KEvenly | KStretch.
@@ -47,7 +47,7 @@ Definition jmap_css (reverse : bool) (k : jkw) : justify :=
   | KEvenly => JEvenly
   end.
 
-Definition to_jitem (r : ritem) (t : Q) : jitem := mkJ (rid r) t (rpad r + rbord r) (rml r) (rmr r) (rgrow r).
+Definition to_jitem (r : ritem) (t : Q) : jitem := mkJ (rid r) t (rpad r + rbord r) (rml r) (rmr r) (rgrow r) (rmin r) (rmax r).
 
 Fixpoint zipj (rs : list ritem) (ts : list Q) : list jitem :=
   match rs, ts with
@@ -81,7 +81,7 @@ Definition row_code (wrapm : nat) (reverse : bool) (k : jkw) (origin W gap : Q) 
 (* css-flexbox reference of the same pipeline *)
 Definition lines_css (wrapm : nat) (reverse : bool) (W gap : Q) (items : list ritem) : list (list ritem) :=
   let sorted := sort_ord rorder items in
-  let ls := collect_css (fun r => let i := css_item (to_item r) in ihyp i + iextra i)
+  let ls := collect_css (fun r => ihyp (to_item r) + iextra (to_item r))
                         (negb (Nat.eqb wrapm 0)) W gap sorted in
   let ls := if Nat.eqb wrapm 2 then rev ls else ls in
   if reverse then map (@rev ritem) ls else ls.
@@ -89,7 +89,7 @@ Definition lines_css (wrapm : nat) (reverse : bool) (W gap : Q) (items : list ri
 Definition row_css (wrapm : nat) (reverse : bool) (k : jkw) (origin W gap : Q) (items : list ritem)
   : option (list (list placed)) :=
   all_some (map (fun line =>
-    match targets (resolve_css (map to_item line) gap W) with
+    match targets (resolve (map to_item line) gap W) with
     | None => None
     | Some ts => Some (justify_css (jmap_css reverse k) origin W gap (zipj line ts))
     end) (lines_css wrapm reverse W gap items)).
@@ -121,7 +121,7 @@ Definition agree (ls : option (list (list placed))) (out : list (Z * Z * Q * Q))
 (* some line of the css pipeline has negative free space before step 12 (diagnostic, bit 2) *)
 Definition css_negative_free (wrapm : nat) (reverse : bool) (W gap : Q) (items : list ritem) : bool :=
   existsb (fun line =>
-    match targets (resolve_css (map to_item line) gap W) with
+    match targets (resolve (map to_item line) gap W) with
     | None => false
     | Some ts => if Qlt_le_dec (jfree W gap (zipj line ts)) 0 then true else false
     end) (lines_css wrapm reverse W gap items).
